@@ -343,3 +343,32 @@ def set_then_get(m, key, value):
     r = m.get_parameter(key)
     assert same(r, value), "get after set returns the value that was set"
 """, params={"m": "ref:DSOLModel", "key": "str", "value": "obj"}, props=C18, axiom_sets=("seqstr", "pmap"))
+
+
+_load_p0 = load
+
+
+def load(reg):      # noqa: F811
+    """Constructor of the quantity parameter (over the assumed base-constructor contract): establishes the class invariant."""
+    _load_p0(reg)
+    base = reg.contracts["InputParameterInt.__init__"]
+    PM = "asref(parent, 'InputParameterMap')"
+    PARENT_UNCHANGED = "implies(instance(parent, 'InputParameterMap'), mapeq(%s._value, old(%s._value)))" % (PM, PM)
+    QV = "asref(self._value, 'Quantity').g_si"
+    params = dict(base.params)
+    for k in ("min_value", "max_value"):
+        params.pop(k, None)
+    params.update({"min_si": "obj", "max_si": "obj", "format_str": "obj"})
+    base_post = [e for e in base.ensures if "VALID_Int" not in e and "_min" not in e and "_max" not in e]
+    reg.contract("InputParameterQuantity.__init__", params=params,
+                 # (a default value that is a Quantity is an instance of one of the 41 concrete classes, with a finite SI value)
+                 requires=list(base.requires) + ["implies(instance(default_value, 'Quantity'), is_quantity_class(class_of(asref(default_value, 'Quantity'))))"],
+                 may_raise=[("TypeError", "True"), ("ValueError", "True")], on_raise="any",
+                 ensures=base_post + [
+                     # establishes the class invariant that set_value relies on
+                     "is_quantity_class(self._type)", "not isnan(self._min_si) and not isnan(self._max_si)",
+                     "isinstance_of(self._value, self._type)",
+                     "num(self._min_si) <= %s and %s <= num(self._max_si)" % (QV, QV)],
+                 exc_ensures=[PARENT_UNCHANGED], modifies=list(base.modifies), props=["C18"], axiom_sets=("seqstr", "pmap"))
+    pc = reg.contracts["InputParameter.__init__"]
+    pc.for_classes = list(dict.fromkeys((pc.for_classes or []) + ["InputParameterQuantity"]))
